@@ -865,6 +865,47 @@ impl Runner {
                     s.drain_cache_evictable();
                 }
             }
+            ["statdrain", p] => {
+                // a drain on one thread while two other threads keep calling stat(): every payload of the
+                // script has `p` bytes, so every report must show size = items * p (a count and a size that
+                // describe one resident set)
+                let Ok(p) = p.parse::<u64>() else { return self.emit("bad-op") };
+                let Some(s) = self.store.as_ref() else { return self.emit("statdrain none") };
+                let done = std::sync::atomic::AtomicBool::new(false);
+                let barrier = std::sync::Barrier::new(3);
+                let torn: Vec<Option<(u64, u64)>> = std::thread::scope(|sc| {
+                    let obs: Vec<_> = (0..2)
+                        .map(|_| {
+                            sc.spawn(|| {
+                                barrier.wait();
+                                let mut bad = None;
+                                let mut spins = 0u32;
+                                loop {
+                                    let fin = done.load(std::sync::atomic::Ordering::SeqCst);
+                                    let st = s.stat();
+                                    let (n, sz) = (st.payload_cache_item_count as u64, st.payload_cache_size as u64);
+                                    if sz != n * p && bad.is_none() {
+                                        bad = Some((n, sz));
+                                    }
+                                    spins += 1;
+                                    if fin && spins >= 3 {
+                                        break;
+                                    }
+                                }
+                                bad
+                            })
+                        })
+                        .collect();
+                    barrier.wait();
+                    s.drain_cache_evictable();
+                    done.store(true, std::sync::atomic::Ordering::SeqCst);
+                    obs.into_iter().map(|h| h.join().unwrap_or(Some((u64::MAX, u64::MAX)))).collect()
+                });
+                match torn.into_iter().flatten().next() {
+                    None => self.emit("statdrain ok"),
+                    Some((n, sz)) => self.emit(&format!("statdrain torn items={} size={}", n, sz)),
+                }
+            }
             ["drop"] | ["droppanic"] | ["dropslow"] => {
                 if let Some(s) = self.store.take() {
                     if toks[0] == "dropslow" {
